@@ -324,3 +324,6 @@ def run(ctx):
     labels.r_label_tables(ctx, "C15.R3")
     r4_template_depths(ctx)
     c05.r2_mark_after_block(ctx, "C15.R5")
+    common.r_stack_discipline(ctx, "C15.R6")
+    from . import c02
+    c02.r5_label_names_injective(ctx, "C15.R7")
